@@ -26,7 +26,7 @@ def run(ctx):
                         (PROJ, "ProjectiveObject.flatten_to_unit"),
                         (PROJ, "ProjectiveObject._construct_from_object"),
                         (PROJ, "Transformation.apply")])
-    ctx.do(P.rule_roles)
+    ctx.do(P.rule_roles, with_inverse=False)
     ctx.do(u1, ENTRIES, min_functions=10)
     ctx.r.assume("that the values at each index equal the per-unit result "
                  "of the vectorised geometry is numerical and not decided; "
